@@ -552,3 +552,47 @@ M('c11-no-primary-guard', 'C11', None, 'every rank reduces the sharded A factor 
   (GL, "            if get_rank() != self.primary_rank:\n                return\n            super().reduce_a_factor(self.data_parallel_group)", "            super().reduce_a_factor(self.data_parallel_group)"))
 M('c11-reuse-mp-group', 'C11', 'GRP-REUSE', 'stage peer group replaced by the model-parallel group (seed C11-2)',
   (GA, "            stage_peers: dict[int, list[int]] = {}\n            for r in range(topology.world_size()):\n                stage_peers.setdefault(topology.get_coord(r).pipe, []).append(r)\n            self.pipe_parallel_peer_group = None\n            for stage in sorted(stage_peers):\n                stage_group = dist.new_group(stage_peers[stage])\n                if stage == self.pipe_parallel_rank:\n                    self.pipe_parallel_peer_group = stage_group\n", "            self.pipe_parallel_peer_group = self.model_parallel_group\n"))
+
+# ---------------------------------------------------------------- C10
+M('c10-no-clone', 'C10', 'ALIAS-INPUT', 'clone of the hook input removed',
+  (LB, "        a = input_[0].to(self.factor_dtype).clone()", "        a = input_[0].to(self.factor_dtype)"))
+M('c10-inplace-scaler', 'C10', 'ALIAS-INPUT', 'in-place division of the output gradient (seed C10-1)',
+  (LB, "            g = g / self.grad_scaler()", "            g /= self.grad_scaler()"))
+M('c10-hook-returns-input', 'C10', 'HOOK-RET', 'forward-pre hook returns its input',
+  (BP, "                layer.update_a_factor(alpha=self.factor_decay)\n                layer.reduce_a_factor(self._assignment.factor_group(name, 'A'))\n\n    @torch.no_grad()\n    def _save_grad_output", "                layer.update_a_factor(alpha=self.factor_decay)\n                layer.reduce_a_factor(self._assignment.factor_group(name, 'A'))\n        return input_  # type: ignore\n\n    @torch.no_grad()\n    def _save_grad_output"))
+M('c10-eval-not-skipped', 'C10', 'DOM-EVAL', 'backward hook ignores the training flag',
+  (BP, "    ) -> None:\n        \"\"\"Hook for saving the gradient w.r.t. output in the backward pass.\"\"\"\n        if not module.training:\n            return\n", "    ) -> None:\n        \"\"\"Hook for saving the gradient w.r.t. output in the backward pass.\"\"\"\n"))
+M('c10-no-nograd', 'C10', 'DEC-NOGRAD', 'step not under no_grad',
+  (BP, "    @torch.no_grad()\n    def step(self) -> None:", "    def step(self) -> None:"))
+M('c10-bias-written-elsewhere', 'C10', 'OWN-PARAMWRITE', 'update_grad zeroes the bias gradient directly',
+  (LB, "        self.module.set_grad(grad)\n        self.grad = None", "        self.module.set_grad(grad)\n        self.module.module.bias.grad = None  # type: ignore\n        self.grad = None"))
+M('c10-inplace-damping', 'C10', 'ALIAS-FACTOR', 'damping added in place to the running average (seed C02-2)',
+  (LI, "        d = torch.diag(\n            self.a_factor.new(self.a_factor.shape[0]).fill_(damping),\n        )\n        a = self.a_factor + d\n        self.a_inv = torch.linalg.inv(a.to(torch.float32)).to(self.inv_dtype)", "        a = self.a_factor.to(torch.float32)\n        a.diagonal().add_(damping)\n        self.a_inv = torch.linalg.inv(a).to(self.inv_dtype)"))
+M('c10-inplace-ema', 'C10', 'ALIAS-FACTOR', 'running average updated in place',
+  (LB, "        self.g_factor = (alpha * self.g_factor) + ((1 - alpha) * g_new)", "        self.g_factor.mul_(alpha).add_((1 - alpha) * g_new)"))
+M('c10-not-contiguous', 'C10', 'TT-ROUNDTRIP', 'weight gradient written back as a view',
+  (LM, "        self.module.weight.grad = weight_grad.contiguous()", "        self.module.weight.grad = weight_grad"))
+M('c10-postscale-cov', 'C10', 'NUM-PRESCALE', 'row normalisation after the product (seed C10-2)',
+  (LU, "        cov_a = a.t() @ (a / scale)", "        cov_a = (a.t() @ a) / scale"))
+T('c10-twin-detach-clone', 'C10', 'clone before the cast',
+  (LB, "        a = input_[0].to(self.factor_dtype).clone()", "        a = input_[0].clone().to(self.factor_dtype)"))
+
+# ---------------------------------------------------------------- C18
+M('c18-load-on-inv-worker', 'C18', 'COH-LOADGUARD', 'in-memory load restores only on the inverse worker (seed C18-1)',
+  (GP, "                    and cast(\n                        GPTNeoXAssignment,\n                        self._assignment,\n                    ).factor_worker(name, 'A')\n                    == get_rank()", "                    and get_rank() == self._assignment.inv_worker(name, 'A')"))
+M('c18-barrier-if-missing', 'C18', 'S1', 'directory barrier skipped when the directory exists (seed C18-2)',
+  (GP, "        if get_rank() == 0:\n            os.makedirs(self.factor_checkpoint_dir, exist_ok=True)\n        torch.distributed.barrier()", "        if not os.path.isdir(self.factor_checkpoint_dir):\n            if get_rank() == 0:\n                os.makedirs(self.factor_checkpoint_dir, exist_ok=True)\n            torch.distributed.barrier()"))
+M('c18-save-everyone', 'C18', 'COH-SAVEGUARD', 'every rank contributes every layer',
+  (GP, "            if get_rank() == self._assignment.inv_worker(name, 'A'):\n                layer_state_dict = layer.state_dict()\n                assert layer_state_dict['A'] is not None", "            if True:\n                layer_state_dict = layer.state_dict()\n                assert layer_state_dict['A'] is not None"))
+M('c18-no-final-barrier', 'C18', 'DOM-BARRIER', 'final barrier of the in-memory load removed',
+  (GP, "                        layer.compute_g_inv(damping=self.damping)\n\n        torch.distributed.barrier()\n", "                        layer.compute_g_inv(damping=self.damping)\n"))
+M('c18-barrier-in-branch', 'C18', 'S1', 'barrier only on ranks that loaded something',
+  (GP, "                        layer.compute_g_inv(damping=self.damping)\n\n        torch.distributed.barrier()\n", "                        layer.compute_g_inv(damping=self.damping)\n                    torch.distributed.barrier()\n"))
+M('c18-path-mismatch', 'C18', 'TAB-PATH', 'files read from name + .pt',
+  (GP, "                filepath = os.path.join(self.factor_checkpoint_dir, name)\n                if os.path.exists(filepath):", "                filepath = os.path.join(self.factor_checkpoint_dir, name + '.pt')\n                if os.path.exists(filepath):"))
+M('c18-no-recompute', 'C18', 'COH-LOADGUARD', 'directory load ignores compute_inverses',
+  (GP, "                    layer.load_state_dict(state_dict)\n                    if compute_inverses:\n                        layer.compute_a_inv(damping=self.damping)", "                    layer.load_state_dict(state_dict)\n                    if True:\n                        layer.compute_a_inv(damping=self.damping)"))
+M('c18-gather-subset', 'C18', 'TAB-GATHER', 'receive list sized by the data-parallel group',
+  (GP, "        partitions = [None for _ in range(get_world_size())]", "        partitions = [None for _ in range(get_world_size(self.data_parallel_group))]"))
+M('c18-gather-inv-only', 'C18', 'S1', 'only ranks with layers take part in the gather',
+  (GP, "        torch.distributed.all_gather_object(partitions, partition, group=group)\n", "        if partition:\n            torch.distributed.all_gather_object(partitions, partition, group=group)\n"))
